@@ -2,7 +2,7 @@
 """Regenerates MANIFEST.json from the claim table below (kept by hand, one entry per property)."""
 import json, os
 V = os.path.dirname(os.path.dirname(os.path.abspath(__file__)))
-TECH = "contract-based deductive verification (Verus) of functions mechanically re-extracted from /repo on every run"
+TECH = "contract-based deductive verification (Verus) of functions mechanically re-extracted from /repo on every run; bounded concrete witness drivers (labelled, never counted as proved) stand in for code no contract reaches and supply failing inputs; Kani full-domain partner harnesses in the thorough tier"
 CLAIMS = json.load(open(os.path.join(V, 'tools', 'claims.json')))
 props = [json.loads(l) for l in open(os.path.join(V, 'properties.jsonl'))]
 checks, na = [], []
@@ -18,7 +18,7 @@ for p in props:
             "replay_cmd_template": "./check --replay {path}",
             "engine": "vx",
             "level_claimed": {"category": "proof", "text": c['text'], "design_ref": f"DESIGN.md §6 {pid}"},
-            "level_note": c.get('note', "Trusted: Verus/z3, vstd specs, the extractor and its declared rewrites, per-unit assumed contracts (listed in evidence.coverage.trusted_base and evidence.assumptions)."),
+            "level_note": c.get('note', "Trusted: Verus/z3, vstd specs, the extractor and its declared rewrites, per-unit assumed contracts (listed in evidence.coverage.trusted_base and evidence.assumptions). The witness drivers (evidence.coverage.witness_drivers) are bounded sampling of the real crate, reported separately and never added to obligations/discharged."),
             "technique": c.get('technique', TECH),
         })
     else:
